@@ -1,0 +1,5 @@
+//go:build !verif
+
+package lalr
+
+func verifPoint(stage string, g *Grammar, opts Options, t *Tables, err error) {}
